@@ -746,7 +746,9 @@ type ELNode struct {
 	buildSeq  uint64
 
 	FaultsSnapshot []*EngineFault
-	Trouble        int // answers other than VALID that were not injected (syncing, build errors, invalid payloads)
+	EnvTrouble     int      // of Trouble: the engine did not know the head/parent (SYNCING), or was asked for a timestamp not after the parent's, or was tampered with
+	GoatRejects    []string // payload builds refused because of the system transactions the consensus layer supplied
+	Trouble        int      // answers other than VALID that were not injected (syncing, build errors, invalid payloads)
 }
 
 func newELNode(id int, chain *ELChain, seed uint64) *ELNode {
@@ -915,6 +917,7 @@ func (api *engineAPI) ForkchoiceUpdatedV3(ctx context.Context, state engine.Fork
 	head := n.Chain.Blocks[state.HeadBlockHash]
 	if head == nil || !n.Known[state.HeadBlockHash] {
 		n.Trouble++
+		n.EnvTrouble++
 		n.record(call, digest, "SYNCING", f)
 		return status(engine.SYNCING, nil), nil
 	}
@@ -927,10 +930,18 @@ func (api *engineAPI) ForkchoiceUpdatedV3(ctx context.Context, state engine.Fork
 		resp.PayloadStatus.LatestValidHash = &state.HeadBlockHash
 		return resp, nil
 	}
+	tampered := n.Chain.Tamper[n.ID] != nil
 	blk, err := n.Chain.build(head, attrs, n.Chain.Tamper[n.ID])
 	delete(n.Chain.Tamper, n.ID)
 	if err != nil {
 		n.Trouble++
+		if !tampered && attrs.Timestamp > head.Timestamp {
+			// the only other reason a build fails: a system transaction handed over by the consensus
+			// layer does not decode or does not carry the next nonce of its module
+			n.GoatRejects = append(n.GoatRejects, err.Error())
+		} else {
+			n.EnvTrouble++
+		}
 		n.record(call, digest, "builderror:"+err.Error(), f)
 		return engine.ForkChoiceResponse{}, &rpcErr{code: -38003, msg: "Invalid payload attributes: " + err.Error()}
 	}
@@ -1042,6 +1053,7 @@ func (api *engineAPI) NewPayloadV4(ctx context.Context, data engine.ExecutableDa
 	parent := n.Chain.Blocks[data.ParentHash]
 	if parent == nil || !n.Known[data.ParentHash] {
 		n.Trouble++
+		n.EnvTrouble++
 		n.record("newPayload", digest, "SYNCING(noparent)", f)
 		return engine.PayloadStatusV1{Status: engine.SYNCING}, nil
 	}
